@@ -103,7 +103,7 @@ impl Prop for C12 {
                 Stage {
                     name: "trees".into(),
                     len: n,
-                    chunk: (n / 64).max(500),
+                    chunk: (n / 20).max(500),
                     timeout: Duration::from_secs(900),
                     what: "ASTs parsed from the program set printed minimally and fully parenthesised (full parenthesisation makes the parser build every operator under every other on either side)".into(),
                 },
